@@ -608,6 +608,28 @@ def _annotation_roots(pb, rng, size):
             t["cds_frames"] = specs.frames_for(cs, ce, t["strand"], f0)
             names.append(pb.add_root("cds", specs.with_parent(t, parent)))
             pb.sliced.append(names[-1])  # preferred by covering walks, like roots cut by their chunk
+    # a stand-alone TRANSCRIPT whose CDS does not tile its exons: one CDS block is split in two pieces that overlap by 1-3 bp
+    # (-1 frameshift) or leave 1-2 bp of the exon out (+1 / +2 frameshift): CDS coordinates and transcript coordinates stop
+    # being a constant offset apart
+    if coding and rng.random() < 0.25:
+        t = copy.deepcopy(rng.choice(coding))
+        cs, ce = list(t["cds_starts"]), list(t["cds_ends"])
+        big = [i for i in range(len(cs)) if ce[i] - cs[i] >= 9]
+        if big:
+            i = rng.choice(big)
+            m = rng.randint(cs[i] + 3, ce[i] - 5)
+            k = rng.randint(1, 3)
+            if rng.random() < 0.5:
+                pieces = [(cs[i], m + k), (m, ce[i])]   # overlap
+            else:
+                pieces = [(cs[i], m), (m + min(k, 2), ce[i])]  # gap inside the exon
+            cs[i:i + 1] = [x[0] for x in pieces]
+            ce[i:i + 1] = [x[1] for x in pieces]
+            f0 = {"ZERO": 0, "ONE": 1, "TWO": 2}[t["cds_frames"][0 if t["strand"] == "PLUS" else -1]]
+            t["cds_starts"], t["cds_ends"] = cs, ce
+            t["cds_frames"] = specs.frames_for(cs, ce, t["strand"], f0)
+            names.append(pb.add_root("transcript", specs.with_parent(t, parent)))
+            pb.sliced.append(names[-1])
     # near-twin: same collection on another parent description
     if rng.random() < 0.5:
         p2 = specs.gen_parent(rng, g, must_cover=None)
@@ -921,11 +943,14 @@ def gen_plan(rng, check="C10", size=1, max_steps=60, known_avoid=()):
             kind = pb.objects[n]["kind"]
             names = (["chunk_relative_codon_locations", "extract_sequence", "translate", "num_codons", "scan_codons", "chromosome_codon_locations",
                       "scan_chunk_relative_codon_locations", "has_valid_stop", "has_start_codon", "translate(args)"]
-                     if kind == "cds" else ["get_protein_sequence", "get_cds_sequence", "cds", "get_transcript_sequence", "get_protein_sequence(args)"])
+                     if kind == "cds" else ["get_protein_sequence", "get_cds_sequence", "cds", "get_transcript_sequence", "get_protein_sequence(args)",
+                                            "get_5p_interval", "get_3p_interval", "cds_pos_to_transcript", "transcript_pos_to_cds", "cds_pos_to_sequence",
+                                            "sequence_pos_to_cds", "cds_interval_to_sequence", "cds_location", "chunk_relative_codon_locations", "translate",
+                                            "extract_sequence", "num_codons", "cds_size"])
             names = [x for x in names if x in BY_NAME[kind]]
             rng.shuffle(names)
             steps = []
-            for x in names[: rng.randint(2, 6)]:
+            for x in names[: rng.randint(2, 8)]:
                 st = pb.call_step(len(sessions), n, BY_NAME[kind][x], store_p=0.0)
                 if st:
                     steps.append(st)
